@@ -17,8 +17,8 @@ fn main() {
     }
     run.rule(
         "documents from the C01 enumerators (byte carriers, token-adjacency arrays/dictionaries, object trees, parametric \
-         families, stratified reals, id/generation/version/mark/trailer menus) x {xref table, xref stream} x {Document::save_to, \
-         IncrementalDocument::save_to chained 1..3 times}; each file is read by the independent strict reader, which must accept \
+         families, stratified reals, id/generation/version/mark/trailer menus) x {xref table, xref stream} x {Document::save_to, Document::save(path) over a fresh and over an existing longer file (file-level documents), \
+         IncrementalDocument::save_to chained 1..3 times on top of lopdf's own file and of a base file written by the reference writer whose cross-reference stream does not hold the highest object number}; each file is read by the independent strict reader, which must accept \
          it, account for every byte and recover the saved objects; non-trivial = file with >= 2 objects or a non-default \
          file-level field; items are distinct by construction",
     );
@@ -69,6 +69,24 @@ fn main() {
                     &m,
                     "strict reader accepts the saved file and recovers the document",
                 );
+            }
+            // the path-taking entry point, writing over an existing longer file (and a fresh path)
+            for existing in [Some(100_000usize), None] {
+                run.eval(1);
+                run.add("files_saved_by_path", 1);
+                match rt::check_doc_path_with(&docs[i].0, table, strict_reader, existing) {
+                    Err(e) => {
+                        eprintln!("MACHINERY: {}", e);
+                        std::process::exit(3);
+                    }
+                    Ok(Some(m)) => run.fail(
+                        None,
+                        json!({"kind": "doc_path", "part": docs[i].1, "table": table, "existing": existing, "doc": doc_to_json(&docs[i].0)}),
+                        &m,
+                        "strict reader accepts the file written by save(path) and recovers the document",
+                    ),
+                    Ok(None) => {}
+                }
             }
         }
     });
@@ -143,7 +161,28 @@ fn payload(k: usize) -> Object {
 /// Apply a chain of edits through IncrementalDocument; returns the final bytes and the model, or
 /// an error message. `case` lists the payload indices so the chain can be replayed.
 fn run_chain(base: &Document, table: bool, chain: &[(Edit, usize)]) -> Result<(), String> {
-    let mut bytes = util::save_bytes(base, table)?;
+    let bytes = util::save_bytes(base, table)?;
+    run_chain_from(bytes, base, chain)
+}
+
+/// A base file as ANOTHER producer writes it (reference writer): the cross-reference stream / helper
+/// objects take the first unused object number, so the highest-numbered object of the file is a
+/// regular object (lopdf's own files always end with the cross-reference stream as highest number).
+fn foreign_base(base: &Document, table: bool) -> Vec<u8> {
+    use vharness::refpdf::{FileSpec, Section, Style};
+    let used: std::collections::BTreeSet<u32> = base.objects.keys().map(|k| k.0).collect();
+    let gap = (1u32..).find(|n| !used.contains(n)).unwrap();
+    let spec = FileSpec {
+        version: base.version.clone(),
+        mark: base.binary_mark.clone(),
+        style: if table { Style::Table } else { Style::Stream },
+        sections: vec![Section { objects: base.objects.clone(), trailer: base.trailer.clone(), objstm: Some(0), omit_xref: vec![], extra_members: vec![] }],
+        helper_base: Some(gap),
+    };
+    vharness::refpdf::write(&spec, &mut vharness::choose::Chooser::new()).0
+}
+
+fn run_chain_from(mut bytes: Vec<u8>, base: &Document, chain: &[(Edit, usize)]) -> Result<(), String> {
     let mut model: BTreeMap<ObjectId, Object> = base.objects.clone();
     check_file(&bytes, base, &model, 1)?;
     for (step, (edit, seed)) in chain.iter().enumerate() {
@@ -237,6 +276,18 @@ fn incremental(run: &Run) {
                     run.fail(
                         None,
                         json!({"kind": "incremental", "base": bi, "table": table, "chain": c}),
+                        &m,
+                        "every incrementally saved file is accepted by the strict reader, keeps the old bytes as a prefix and yields the model objects",
+                    );
+                }
+                // the same chain on top of a base file written by another producer
+                run.eval(chains[ci].len() as u64 + 1);
+                run.add("files_incremental_foreign_base", chains[ci].len() as u64);
+                if let Err(m) = run_chain_from(foreign_base(base, table), base, &chains[ci]) {
+                    let c: Vec<Value> = chains[ci].iter().map(|(e, s)| json!({"replace": e.replace, "add": e.add, "seed": s})).collect();
+                    run.fail(
+                        None,
+                        json!({"kind": "incremental", "foreign": true, "base": bi, "table": table, "chain": c}),
                         &m,
                         "every incrementally saved file is accepted by the strict reader, keeps the old bytes as a prefix and yields the model objects",
                     );
@@ -346,6 +397,10 @@ fn replay(run: &Run, path: &std::path::Path) -> ! {
     let res: Option<String> = match case["kind"].as_str() {
         Some("item") => check_single_with(&obj_from_json(&case["item"]), table, strict_reader),
         Some("doc") => check_doc_with(&doc_from_json(&case["doc"]), table, strict_reader),
+        Some("doc_path") => match rt::check_doc_path_with(&doc_from_json(&case["doc"]), table, strict_reader, case["existing"].as_u64().map(|k| k as usize)) {
+            Ok(r) => r,
+            Err(e) => Some(e),
+        },
         Some("boundary") => check_doc_with(
             &docgen::boundary_doc(case["log2"].as_u64().unwrap() as u32, case["delta"].as_u64().unwrap() as usize, case["big_last"].as_bool().unwrap()),
             table,
@@ -374,7 +429,11 @@ fn replay(run: &Run, path: &std::path::Path) -> ! {
                     )
                 })
                 .collect();
-            run_chain(base, table, &chain).err()
+            if case["foreign"].as_bool() == Some(true) {
+                run_chain_from(foreign_base(base, table), base, &chain).err()
+            } else {
+                run_chain(base, table, &chain).err()
+            }
         }
         _ => {
             eprintln!("MACHINERY: unknown replay kind");
